@@ -31,6 +31,7 @@ type Engine struct {
 	oblSeen   map[string]bool
 	covers    map[string]bool
 	observed  []string
+	notes     map[string]bool
 	inputs    []Term
 	kinds     []string
 	depth     int
@@ -44,7 +45,12 @@ type Engine struct {
 	vecPos    int
 	loopCount map[*ssa.BasicBlock]int
 	elemOf    map[*Value]elemRef
+	allocBudget int64
+	sampled     int
+	sizeCapped  int
 }
+
+var sizes = types.SizesFor("gc", "amd64")
 
 type elemRef struct {
 	arr []Value
@@ -77,6 +83,8 @@ func (e *Engine) resetRun() {
 	e.oblSeen = map[string]bool{}
 	e.covers = map[string]bool{}
 	e.observed = nil
+	e.notes = nil
+	e.sampled, e.sizeCapped = 0, 0
 }
 
 func (e *Engine) beginPath() {
@@ -87,6 +95,7 @@ func (e *Engine) beginPath() {
 	e.aesSeen = nil
 	e.pathData = map[string]interface{}{}
 	e.elemOf = map[*Value]elemRef{}
+	e.allocBudget = 0
 	e.vecPos = 0
 	e.depth = 0
 	e.curPanicFrame = nil
@@ -208,11 +217,25 @@ func (e *Engine) concretize(t Term, lo, hi int) int {
 	return e.concretizeByModel(t, lo, hi)
 }
 
-type modelSlot struct{ vals []int }
+type modelSlot struct {
+	vals   []int
+	phase  int
+	nLarge int
+}
 
 var modelSlots = map[string]*modelSlot{}
 
 func (e *Engine) concretizeByModel(t Term, lo, hi int) int {
+	return e.concretizeSampled(t, 1<<62, 0)
+}
+
+// concretizeSampled enumerates the feasible values of t by model: exhaustively those <= smallMax (signed),
+// then at most nLarge representatives above it (nLarge = 0: exhaustively everything).  Sampling is a stated
+// bound: the run is marked (e.sampled) so the evidence says so.
+func (e *Engine) concretizeSampled(t Term, smallMax int64, nLarge int) int {
+	if t.IsConst() {
+		return t.Int()
+	}
 	key := fmt.Sprintf("%p|%s|%d", e.obl, e.pathString(), e.pos)
 	slot := modelSlots[key]
 	if slot == nil {
@@ -223,30 +246,48 @@ func (e *Engine) concretizeByModel(t Term, lo, hi int) int {
 		if k < len(slot.vals) {
 			return slot.vals[k], true
 		}
-		// find a new value different from all known ones
-		e.solver.Push()
-		for _, v := range slot.vals {
-			e.solver.Assert(Not(Eq(t, BV(t.W, int64(v)))))
-		}
-		r := e.solver.Check()
-		if r != "sat" {
-			e.solver.Pop()
-			if r != "unsat" {
+		for {
+			if slot.phase == 1 && nLarge > 0 && slot.nLarge >= nLarge {
+				e.sampled++
+				return 0, false
+			}
+			e.solver.Push()
+			if slot.phase == 0 {
+				e.solver.Assert(Sle(t, BV(t.W, smallMax)))
+			} else if nLarge > 0 {
+				e.solver.Assert(Slt(BV(t.W, smallMax), t))
+			}
+			for _, v := range slot.vals {
+				e.solver.Assert(Not(Eq(t, BV(t.W, int64(v)))))
+			}
+			r := e.solver.Check()
+			if r == "unsat" {
+				e.solver.Pop()
+				if slot.phase == 0 && nLarge > 0 {
+					slot.phase = 1
+					continue
+				}
+				return 0, false
+			}
+			if r != "sat" {
+				e.solver.Pop()
 				e.Unknowns++
 				panic(pathAbort{"concretize: solver " + r})
 			}
-			return 0, false
+			vs, err := e.solver.GetValues([]Term{t})
+			e.solver.Pop()
+			if err != nil {
+				panic(pathAbort{"concretize: " + err.Error()})
+			}
+			v := parseModelInt(vs[0], t.W)
+			slot.vals = append(slot.vals, v)
+			if slot.phase == 1 {
+				slot.nLarge++
+			}
+			return v, true
 		}
-		vs, err := e.solver.GetValues([]Term{t})
-		e.solver.Pop()
-		if err != nil {
-			panic(pathAbort{"concretize: " + err.Error()})
-		}
-		v := parseModelInt(vs[0], t.W)
-		slot.vals = append(slot.vals, v)
-		return v, true
 	}
-	const maxVals = 4096
+	const maxVals = 1 << 20
 	if e.pos < len(e.dec) {
 		k := e.dec[e.pos]
 		v, ok := nextVal(k)
@@ -269,6 +310,46 @@ func (e *Engine) concretizeByModel(t Term, lo, hi int) int {
 	e.pos++
 	e.assume(Eq(t, BV(t.W, int64(v))))
 	return v
+}
+
+// allocSize resolves the element count of a make/MakeSlice: Go's panics first, then the allocation budget
+// obligation (C15), then concretisation (small sizes exhaustively, large ones sampled).
+func (e *Engine) allocSize(n Term, elemBytes int, what string) int {
+	if n.IsConst() {
+		v := n.Signed()
+		if v.Sign() < 0 || v.BitLen() > 40 {
+			e.goPanicStr(what + ": len out of range")
+		}
+		if v.Int64() > 1<<26 {
+			unsupported("%s: allocation of %d elements exceeds the engine limit", what, v.Int64())
+		}
+		return int(v.Int64())
+	}
+	if e.branch(Or(Slt(n, BV(n.W, 0)), Slt(BV(n.W, 1<<40), n))) {
+		e.goPanicStr(what + ": len out of range")
+	}
+	limit := int64(1 << 16)
+	if e.allocBudget > 0 {
+		limit = e.allocBudget / int64(elemBytes)
+		within := Sle(n, BV(n.W, limit))
+		e.doAssert(within, "allocation-proportional-to-input")
+		if !e.feasible(within) {
+			panic(infeasible{})
+		}
+		e.assume(within)
+	} else {
+		within := Sle(n, BV(n.W, limit))
+		if !e.feasible(Not(within)) {
+			// fine: never larger
+		} else {
+			e.sizeCapped++
+		}
+		if !e.feasible(within) {
+			panic(pathAbort{"allocation larger than the engine cap on every model"})
+		}
+		e.assume(within)
+	}
+	return e.concretizeSampled(n, 32, 3)
 }
 
 func parseModelInt(s string, w int) int {
@@ -541,15 +622,28 @@ func (e *Engine) step(fr *frame, in ssa.Instruction) {
 	case *ssa.Slice:
 		fr.env[in] = e.slice(fr, in)
 	case *ssa.MakeSlice:
-		n := e.concretize(e.get(fr, in.Len).(Term), 0, 64)
-		c := e.concretize(e.get(fr, in.Cap).(Term), 0, 64)
-		if n < 0 || c < n {
-			e.goPanicStr("makeslice: len out of range")
-		}
 		el := in.Type().Underlying().(*types.Slice).Elem()
+		esz := int(sizes.Sizeof(el))
+		if esz < 1 {
+			esz = 1
+		}
+		n := e.allocSize(e.get(fr, in.Len).(Term), esz, "makeslice")
+		c := n
+		if ct := e.get(fr, in.Cap).(Term); !(ct.IsConst() && ct.Int() == n) {
+			c = e.allocSize(ct, esz, "makeslice(cap)")
+		}
+		if c < n {
+			e.goPanicStr("makeslice: cap out of range")
+		}
 		a := make([]Value, n, c)
+		z := zero(el)
+		_, shareable := z.(Term)
 		for i := range a {
-			a[i] = zero(el)
+			if shareable {
+				a[i] = z
+			} else {
+				a[i] = zero(el)
+			}
 		}
 		fr.env[in] = Slice{a}
 	case *ssa.MakeMap:
